@@ -225,6 +225,26 @@ example : l21Axes false [2, 2] [0] [(3 : ℝ), 0, 4, 5] = 10 := by
     rw [show (25 : ℝ) = 5 ^ 2 by norm_num]; exact Real.sqrt_sq (by norm_num)
   norm_num [size, List.range_succ, h25]
 
+/-- **`L21Norm(l2_axis=axes)` for an ARBITRARY axis subset, any shape with positive dimensions.**  The model sums one
+    `sqrt` per group over the `|x|²` of the group (first conjunct, the definition written with the group key
+    `l21Key = ravel ∘ dropAxes ∘ unravel`); two entries are in the same group **iff** their multi-indices
+    (`unravel` = `np.unravel_index`) agree along every axis that is not reduced — the groups of
+    `(|x|²).sum(axis=axes)` —; and every entry's group has exactly one representative inside the array (its key, which
+    is its own key), so each entry is counted in exactly one `sqrt`. -/
+theorem C09_l21_axis_groups (shape axes : List Nat) (hpos : ∀ d ∈ shape, 0 < d) (sq : List ℝ) :
+    l21AxesOfSq shape axes sq =
+      (((List.range (size shape)).filter (fun i => l21Key shape axes i == i)).map (fun r =>
+        |Real.sqrt ((((List.range (size shape)).filter (fun i => l21Key shape axes i == r)).map
+          (fun i => sq.getD i 0)).sum)|)).sum ∧
+    (∀ i j, l21Key shape axes i = l21Key shape axes j ↔
+      ∀ p, axes.contains p = false → (unravel shape i).getD p 0 = (unravel shape j).getD p 0) ∧
+    (∀ i, l21Key shape axes i < size shape ∧ l21Key shape axes (l21Key shape axes i) = l21Key shape axes i) ∧
+    (∀ mi, List.Forall₂ (· < ·) mi shape → unravel shape (ravel shape mi) = mi) :=
+  ⟨l21AxesOfSq_eq shape axes sq, l21Key_eq_iff shape axes hpos, l21Key_rep shape axes hpos, unravel_ravel shape⟩
+
+-- shape (2,3), l2_axis=1: positions 1 = (0,1) and 2 = (0,2) share the kept coordinate 0; 1 and 4 = (1,1) do not
+example : l21Key [2, 3] [1] 1 = l21Key [2, 3] [1] 2 ∧ l21Key [2, 3] [1] 1 ≠ l21Key [2, 3] [1] 4 := by decide
+
 /-- `L21Norm.__call__` accepts a block argument only with `l2_axis=None` (`ValueError` otherwise) and then
     follows the block-wise rule of `C09_l21_blockwise` -/
 theorem C09_l21_call (cplx : Bool) (axes : List Nat) (shape : List Nat) (bs : List (List ℝ)) (v : List ℝ) :
